@@ -24,7 +24,7 @@ namespace {
 enum Kind { K_VECTOR = 0, K_LIST, K_TREE, K_HASH, K_LTBL, K_NKIND };
 const char *kname(int k) { static const char *n[] = {"qvector", "qlist", "qtreetbl", "qhashtbl", "qlisttbl"}; return n[k]; }
 struct Op { int code; std::string key, val; };
-struct Prog { int kind; std::vector<std::string> init; std::vector<std::vector<Op>> thr; bool unique = false; };
+struct Prog { int kind; std::vector<std::string> init; std::vector<std::vector<Op>> thr; bool unique = false; size_t limit = 0; };
 
 const char *opname(int kind, int code) {
     static const char *seq[] = {"addlast", "addfirst", "popfirst", "poplast", "getfirst(copy)", "clear", "toarray", "removefirst", "addat(1)", "getlast(copy)", "tostring"};
@@ -35,21 +35,21 @@ std::string opstr(int kind, const Op &o) { std::string s = opname(kind, o.code);
 
 // ------------------------------------------------------------------ sequential model
 struct Model {
-    int kind; bool unique = false;
+    int kind; bool unique = false; size_t limit = 0;      // limit: qlist setsize()
     std::vector<std::string> seq;                       // vector / list
     std::vector<std::pair<std::string, std::string>> kv; // listtbl order; tree/hash as set
     std::string apply(const Op &o) {
         if (kind <= K_LIST) {
             switch (o.code) {
-                case 0: seq.push_back(o.val); return "T";
-                case 1: seq.insert(seq.begin(), o.val); return "T";
+                case 0: if (limit && seq.size() >= limit) return "F"; seq.push_back(o.val); return "T";
+                case 1: if (limit && seq.size() >= limit) return "F"; seq.insert(seq.begin(), o.val); return "T";
                 case 2: { if (seq.empty()) return "NULL"; std::string r = seq.front(); seq.erase(seq.begin()); return r; }
                 case 3: { if (seq.empty()) return "NULL"; std::string r = seq.back(); seq.pop_back(); return r; }
                 case 4: return seq.empty() ? "NULL" : seq.front();
                 case 5: seq.clear(); return "";
                 case 6: { if (seq.empty()) return "NULL"; std::string r; for (auto &e : seq) r += e; return r; }
                 case 7: { if (seq.empty()) return "F"; seq.erase(seq.begin()); return "T"; }
-                case 8: { if (seq.size() < 1) return "F"; seq.insert(seq.begin() + 1, o.val); return "T"; }
+                case 8: { if (limit && seq.size() >= limit) return "F"; if (seq.size() < 1) return "F"; seq.insert(seq.begin() + 1, o.val); return "T"; }
                 case 9: return seq.empty() ? "NULL" : seq.back();
                 default: { if (seq.empty()) return "NULL"; std::string r; for (auto &e : seq) r += e; return r; }
             }
@@ -86,6 +86,7 @@ struct Sched {
     std::vector<std::pair<int, int>> decisions;   // (choice, ncand) per branching decision
     std::vector<bool> cur_runnable_at;            // whether choice 0 meant "stay" at that decision
     int preemptions = 0, preempt_in_op = 0;
+    long burst[MAXT]; int bursts_used = 0, max_bursts = 1;      // starvation: waiter spins > MAX_MUTEX_LOCK_WAIT rounds ("force to unlock" path)
     long clock = 0;
     bool in_op[MAXT];
 } S;
@@ -129,8 +130,20 @@ void reschedule(bool self_finished) {
 }
 void yield_point() { if (!S.active || t_id < 0 || S.freerun) return; reschedule(false); }
 
+// a two-way decision that is part of the schedule (recorded like a thread choice, not a preemption)
+int decide2(int prob_num, int prob_den) {
+    size_t di = S.decisions.size();
+    int ch;
+    if (di < S.forced.size()) ch = S.forced[di];
+    else if (S.rnd) ch = S.rnd->chance(prob_num, prob_den) ? 1 : 0;
+    else ch = 0;
+    if (ch > 1) ch = 1;
+    S.decisions.push_back({ch, 2}); S.cur_runnable_at.push_back(false);
+    return ch;
+}
 int hook_trylock(void *m, int (*real)(void *)) {
     if (!S.active || t_id < 0) return real(m);
+    if (S.burst[t_id] > 0) { int r = real(m); if (r != 0) S.waitm[t_id] = m; else S.burst[t_id] = 0; return r; }   // spinning: no other thread gets to run
     yield_point();
     int r = real(m);
     if (r != 0) S.waitm[t_id] = m;
@@ -139,13 +152,27 @@ int hook_trylock(void *m, int (*real)(void *)) {
 int hook_unlock(void *m, int (*real)(void *)) {
     if (!S.active || t_id < 0) return real(m);
     int r = real(m);
+    if (r != 0) return r;                      // e.g. the "force to unlock" attempt of a thread that does not own the mutex
     for (int i = 0; i < S.n; i++) if (S.st[i] == Sched::WAITM && S.waitm[i] == m) S.st[i] = Sched::RUN;
     yield_point();
     return r;
 }
 int hook_usleep(unsigned) {
+    if (S.active && t_id >= 0 && S.leak) {
+        // the lock was leaked by a thread that is gone: this thread would spin in Q_MUTEX_ENTER for
+        // ever (a recursive mutex cannot be force-unlocked by a non-owner).  The verdict is already
+        // recorded; end the thread so that the run can be wrapped up.
+        S.st[t_id] = Sched::FIN;
+        bool all = true; for (int i = 0; i < S.n; i++) if (S.st[i] != Sched::FIN) all = false;
+        if (all) sem_post(&S.done);
+        pthread_exit(nullptr);
+    }
     if (!S.active || t_id < 0 || S.freerun) return 0;
-    // the trylock just failed: wait until that mutex is released
+    if (S.burst[t_id] > 0) { S.burst[t_id]--; return 0; }
+    // the trylock just failed: either the owner is starved long enough for this thread to run
+    // into the library's lock-wait timeout (one burst per run), or this thread sleeps until the
+    // mutex is released
+    if (S.bursts_used < S.max_bursts && decide2(1, 5)) { S.bursts_used++; S.burst[t_id] = 5200; return 0; }
     S.st[t_id] = Sched::WAITM;
     reschedule(false);
     return 0;
@@ -233,7 +260,7 @@ std::string contents_of(const Prog &p, void *c) {
 void *create(const Prog &p) {
     switch (p.kind) {
         case K_VECTOR: return qvector(2, 4, QVECTOR_THREADSAFE | QVECTOR_RESIZE_EXACT);
-        case K_LIST: return qlist(QLIST_THREADSAFE);
+        case K_LIST: { qlist_t *l = qlist(QLIST_THREADSAFE); if (l && p.limit) qlist_setsize(l, p.limit); return l; }
         case K_TREE: return qtreetbl(QTREETBL_THREADSAFE);
         case K_HASH: return qhashtbl(3, QHASHTBL_THREADSAFE);
         default: return qlisttbl(QLISTTBL_THREADSAFE | (p.unique ? QLISTTBL_UNIQUE : 0));
@@ -272,6 +299,7 @@ void execute(const Prog &p, Exec &ex) {
     // initial elements, sequentially
     { Model m; m.kind = p.kind; for (size_t i = 0; i < p.init.size(); i++) { Op o; o.code = 0; o.key = "k" + std::to_string(i); o.val = p.init[i]; do_op(p, ex.cont, o); } }
     S.n = (int)p.thr.size(); S.decisions.clear(); S.cur_runnable_at.clear(); S.preemptions = 0; S.preempt_in_op = 0; S.clock = 0; S.leak = false; S.freerun = false;
+    S.bursts_used = 0; for (int i = 0; i < MAXT; i++) S.burst[i] = 0;
     sem_init(&S.done, 0, 0);
     for (int i = 0; i < S.n; i++) { sem_init(&S.sem[i], 0, 0); S.st[i] = p.thr[(size_t)i].empty() ? Sched::FIN : Sched::RUN; S.waitm[i] = nullptr; S.in_op[i] = false; }
     g_ex = &ex;
@@ -292,8 +320,8 @@ void execute(const Prog &p, Exec &ex) {
     }
     S.active = false;
     vf_hook_trylock = nullptr; vf_hook_unlock = nullptr; vf_hook_usleep = nullptr;
-    ex.final_contents = contents_of(p, ex.cont);
-    destroy(p, ex.cont); ex.cont = nullptr;
+    if (S.leak) { ex.final_contents = "<not read: the container lock is held by a finished thread>"; ex.cont = nullptr; }   // the object is abandoned: releasing it would wait for the lock
+    else { ex.final_contents = contents_of(p, ex.cont); destroy(p, ex.cont); ex.cont = nullptr; }
     for (int i = 0; i < S.n; i++) sem_destroy(&S.sem[i]);
     sem_destroy(&S.done);
 }
@@ -316,7 +344,7 @@ bool lin_search(const Prog &p, const std::vector<Obs> &h, std::vector<bool> &don
     return false;
 }
 std::string describe(const Prog &p, const Exec &ex) {
-    std::string s = std::string(kname(p.kind)) + (p.unique ? "(UNIQUE)" : "") + " init[";
+    std::string s = std::string(kname(p.kind)) + (p.unique ? "(UNIQUE)" : "") + (p.limit ? "(max " + std::to_string(p.limit) + ")" : "") + " init[";
     for (auto &e : p.init) s += e + " ";
     s += "]";
     std::vector<Obs> h = ex.hist; std::sort(h.begin(), h.end(), [](const Obs &a, const Obs &b) { return a.inv < b.inv; });
@@ -326,8 +354,8 @@ std::string describe(const Prog &p, const Exec &ex) {
     return s;
 }
 void verdict(Ctx &c, const Prog &p, const Exec &ex) {
-    if (S.leak) c.fail(LIN, (std::string("conc:lock-leaked:") + kname(p.kind)).c_str(), "all remaining threads wait for the container lock although no thread is inside an operation that could release it: %s", describe(p, ex).c_str());
-    Model m; m.kind = p.kind; m.unique = p.unique;
+    if (S.leak) c.fail(LIN | LOCK, (std::string("conc:lock-leaked:") + kname(p.kind)).c_str(), "all remaining threads wait for the container lock although no thread is inside an operation that could release it: %s", describe(p, ex).c_str());
+    Model m; m.kind = p.kind; m.unique = p.unique; m.limit = p.limit;
     for (size_t i = 0; i < p.init.size(); i++) { Op o; o.code = 0; o.key = "k" + std::to_string(i); o.val = p.kind <= K_LIST ? pad4(p.init[i]) : p.init[i]; m.apply(o); }
     std::vector<bool> done(ex.hist.size(), false);
     // the model works on padded element values for sequences
@@ -344,6 +372,7 @@ Prog gen_prog(Src &s) {
     p.kind = (int)s.pick({4, 3, 2, 2, 3});
     p.unique = p.kind == K_LTBL && s.boolean();
     int ninit = (int)s.range(0, 3);
+    if (p.kind == K_LIST && s.chance(1, 3)) { p.limit = (size_t)s.range(1, 3); if ((size_t)ninit > p.limit) ninit = (int)p.limit; }
     for (int i = 0; i < ninit; i++) p.init.push_back("i" + std::to_string(i));
     int nt = (int)s.pick({3, 1}) == 0 ? 2 : 3;
     int vc = 0;
@@ -400,6 +429,9 @@ namespace {
 }
 
 bool vf_configure(Ctx &c) {
+    // C14 uses the same scheduled programs for the part of its statement that needs a second thread
+    // ("another thread's next operation always completes"): only the leaked-lock verdict decides there
+    if (c.mode == "C14") { c.deciding = LOCK | CRASH | HANG; c.noteonly = LEAK | MEM; g_freerun_mode = false; return true; }
     if (c.mode != "C13") return false;
     c.deciding = LIN | MEM | CRASH | HANG; c.noteonly = LEAK;
     g_freerun_mode = getenv("VF_FREERUN") != nullptr;
@@ -418,6 +450,7 @@ void run_case(Src &s, Ctx &c) {
     verdict(c, p, ex);
     c.nontrivial = S.preempt_in_op > 0;
     c.tag(kname(p.kind)); if (S.preempt_in_op) c.tag("schedule_with_preemption_inside_an_operation");
+    if (S.bursts_used) c.tag("schedule_with_lock_wait_timeout_burst"); if (p.limit) c.tag("qlist_with_size_limit");
     c.tag(p.thr.size() == 2 ? "threads_2" : "threads_3");
 }
 
@@ -437,6 +470,7 @@ bool vf_enumerate(Ctx &c, EnumStats &st) {
                 if (!two && b != codes[0]) continue;
                 if ((int)(pidx++ % (uint64_t)nshards) != shard) continue;
                 Prog p; p.kind = kind; p.unique = kind == K_LTBL && ninit >= 2;
+                if (kind == K_LIST && (pidx & 1)) p.limit = 2;
                 for (int i = 0; i < (ninit & 1) + (kind <= K_LIST ? 1 : 0); i++) p.init.push_back("i" + std::to_string(i));
                 auto mk = [&](int code, int n) { Op o; o.code = code; o.key = "k" + std::to_string(n % 2); o.val = "v" + std::to_string(n); return o; };
                 std::vector<Op> t0{mk(a, 0)}; if (two) t0.push_back(mk(b, 1));
